@@ -506,6 +506,50 @@ try { rd("t", t) } catch e { rd("t", "undef") }
 	r8Reached(c, "invocations_of_one_function", k)
 }
 
+// c04HotName: ONE read node and ONE assignment node (inside a function literal made afresh by every
+// invocation of outer) evaluated thousands of times while the scope that holds the nearest binding of
+// the name alternates: on even rounds only the top level binds x, on odd rounds the invocation of
+// outer has declared its own x before the literal is called (the literal captured that scope by
+// reference, so the binding made after its creation is the nearest one).
+func c04HotName(c *wk.Case, mp *modelProp, variant int) {
+	k := []int{4200, 1300, 9000, 2500}[(variant+c.Index)%4]
+	src := fmt.Sprintf(`x = -1
+func outer(i) {
+  get = func() { return x }
+  set = func(v) { x = v }
+  if i %% 2 == 0 {
+    set(i * 3)
+    return [get(), x]
+  }
+  var x = i
+  a = get()
+  set(i + 100000)
+  return [a, get(), x]
+}
+for i = 0; i < %d; i++ {
+  rd("o", outer(i))
+  if i %% 50 == 0 { rd("x", x) }
+}
+rd("x", x)
+`, k)
+	var want []string
+	gx := int64(-1)
+	for i := 0; i < k; i++ {
+		if i%2 == 0 {
+			gx = int64(i * 3)
+			want = append(want, evRd("o", []interface{}{gx, gx}))
+		} else {
+			want = append(want, evRd("o", []interface{}{int64(i), int64(i + 100000), int64(i + 100000)}))
+		}
+		if i%50 == 0 {
+			want = append(want, evRd("x", gx))
+		}
+	}
+	want = append(want, evRd("x", gx))
+	r8One(c, mp, "hot-name", src, want, "", map[string]interface{}{"rounds": k})
+	r8Reached(c, "evaluations_of_one_name_node", k)
+}
+
 func r8One(c *wk.Case, mp *modelProp, name, src string, want []string, wantErr string, extra map[string]interface{}) bool {
 	return r8OneEnv(c, mp, name, src, want, wantErr, extra, nil)
 }
